@@ -409,6 +409,12 @@ func genReasmRealCase(rng *rand.Rand) RCase {
 	if rng.Intn(2) == 0 {
 		c.Ops = append(c.Ops, ROp{K: "maintain"})
 	}
+	if rng.Intn(2) == 0 && c.TimeoutNs > 0 && c.TimeoutNs < int64(time.Hour) {
+		// pushes are still accepted after Close; when the timeout of such a record has elapsed, Maintain and a
+		// further Close must still answer with the error and deliver nothing
+		c.Ops = append(c.Ops, ROp{K: "push", ID: id + 2, Seq: c.Base + uint32(pos) + 2, Typ: []uint16{tSYSCALL, tPATH}[rng.Intn(2)]},
+			ROp{K: "sleep", Ms: toMs * 5}, ROp{K: "maintain"}, ROp{K: []string{"close", "maintain"}[rng.Intn(2)]})
+	}
 	return c
 }
 
